@@ -119,6 +119,10 @@ class Kinds:
                 if base and all(isinstance(k, tuple) and k[0] == 'exc'
                                 for k in base):
                     return ks('Reply')
+            if isinstance(x, ast.Attribute):
+                ak = self.attr_kinds(x, ctx)
+                if ak is not None:
+                    return ak
             # class / module level objects
             ts = e.r.infer(x, ctx)
             out = set()
@@ -172,6 +176,48 @@ class Kinds:
         if isinstance(x, (ast.Yield, ast.YieldFrom)):
             return UNKNOWN
         return UNKNOWN
+
+    def attr_kinds(self, x: ast.Attribute, ctx: Ctx) -> Optional[KS]:
+        """Flow-insensitive kinds of an instance attribute of a repo class:
+        join over every `self.attr = <expr>` in the class hierarchy."""
+        e = self.e
+        out = set()
+        found = False
+        memo = self.__dict__.setdefault('_attr_memo', {})
+        for rt in e.r.infer(x.value, ctx):
+            if rt[0] != 'inst' or rt[1] not in e.p.classes:
+                continue
+            key = (rt[1], x.attr)
+            if key in memo:
+                if memo[key] is not None:
+                    out |= memo[key]
+                    found = True
+                continue
+            memo[key] = None         # recursion guard
+            acc = set()
+            hit = False
+            for k in e.p.mro(rt[1]):
+                c = e.p.classes.get(k)
+                if c is None:
+                    continue
+                for m in c.methods.values():
+                    sn = m.self_name
+                    if not sn:
+                        continue
+                    for n in ast.walk(m.node):
+                        if isinstance(n, ast.Assign):
+                            for t in n.targets:
+                                if isinstance(t, ast.Attribute) and \
+                                        t.attr == x.attr and \
+                                        isinstance(t.value, ast.Name) and \
+                                        t.value.id == sn:
+                                    hit = True
+                                    acc |= self.eval(n.value, Ctx(m, rt[1]))
+            if hit:
+                memo[key] = frozenset(acc)
+                out |= acc
+                found = True
+        return frozenset(out) if found and out else None
 
     def eval_call(self, x: ast.Call, ctx: Ctx, env, frame) -> KS:
         e = self.e
